@@ -3,6 +3,7 @@ package checks
 
 import (
 	"fmt"
+	"regexp"
 	"strings"
 
 	"verifharness/internal/corpus"
@@ -59,7 +60,7 @@ func totality(t *fw.T, o *run.Obs) bool {
 		}
 	case run.Accepted:
 		if o.JSONErr != "" {
-			t.Violation("tojson-error:"+run.NormMsg(o.JSONErr), "accepted project cannot be serialised: "+o.JSONErr)
+			t.Violation("tojson-error:"+run.NormMsg(lastSegment(o.JSONErr)), "accepted project cannot be serialised: "+shortenMid(o.JSONErr))
 			ok = false
 		}
 	}
@@ -110,4 +111,27 @@ func outcomeClass(o *run.Obs) string {
 func pickCorpus(r *xrand.Rand, max int) corpus.Entry {
 	ee := corpus.Small(max)
 	return ee[r.Intn(len(ee))]
+}
+
+// lastSegment returns the innermost error of a chain of "…: …: msg".
+func lastSegment(s string) string {
+	const mark = "json: error calling MarshalJSON for type "
+	i := strings.LastIndex(s, mark)
+	if i < 0 {
+		return s
+	}
+	rest := s[i+len(mark):]
+	if j := strings.Index(rest, ": "); j >= 0 {
+		rest = rest[j+2:]
+	}
+	return depthCharRe.ReplaceAllString(rest, "invalid character 'X' exceeded max depth")
+}
+
+var depthCharRe = regexp.MustCompile(`invalid character '.' exceeded max depth`)
+
+func shortenMid(s string) string {
+	if len(s) <= 500 {
+		return s
+	}
+	return s[:250] + " … " + s[len(s)-250:]
 }
